@@ -487,7 +487,7 @@ def run_case_vmap(runner, tid, case, nb=3):
                 "undo": {"status": "none", "post": T0, "w": 0}, "alt": {"status": "none", "post": T0, "w": 0},
                 "alt2": {"status": "none", "post": T0, "w": 0}, "alt3": {"status": "none", "post": T0, "w": 0},
                 "altm": {"status": "none", "post": T0, "w": 0}, "flagmode": "none", "subt": {"choices": [], "score": 0},
-                "w2": 0, "haspre": False, "extra": []}
+                "w2": 0, "haspre": False, "extra": [], "tagvars": [], "consform": 0, "argmode": "array"}
 
     def sl(x, i):
         return jax.tree_util.tree_map(lambda v: v[i], x)
